@@ -10,13 +10,13 @@ abbrev Bytes := List UInt8
 
 /-- Outcomes of the real readers other than success. `panic` is the behaviour of the
 *unchecked* element readers on a short read (`read_raw_unchecked(..).expect(..)`). -/
-inductive Err | eof | version | kTooLarge | kExt | count | point | panic | invalid | pow2
+inductive Err | eof | version | kTooLarge | kExt | count | point | panic | invalid | pow2 | shape
   deriving DecidableEq, Repr
 
 def Err.code : Err → String
   | .eof => "err eof" | .version => "err version" | .kTooLarge => "err k" | .kExt => "err kext"
   | .count => "err count" | .point => "err point" | .panic => "panic" | .invalid => "err invalid"
-  | .pow2 => "err pow2"
+  | .pow2 => "err pow2" | .shape => "err shape"
 
 /-- `read_exact` of `n` bytes: the bytes and the rest, or `UnexpectedEof`. -/
 def readExact (n : Nat) (bs : Bytes) : Except Err (Bytes × Bytes) :=
